@@ -555,6 +555,134 @@ def unproduct(stmts: List[ast.stmt]) -> List[ast.stmt]:
     return out
 
 
+def table_fuse(body: List[ast.stmt]) -> List[ast.stmt]:
+    """TABLE-FUSE: a list built by one top-level loop, `L = []; [c = c0;] for a in K: <pure locals>; L.append(E); [c += d]`, and read by exactly one
+    later loop `for [i,] r in [enumerate](L): S` (possibly nested in other loops): the reading loop becomes
+    `[c = c0;] for [i,] a in [enumerate](K): <pure locals>; r = E; [c += d]; S`, the building loop goes.  The k-th record is built from the k-th
+    key by effect-free statements (len(), arithmetic, namedtuple / tuple construction), so building it where it is used gives the same record --
+    provided the containers those statements read are not resized by S (assumption shared with UNZIP-MAP, DESIGN 8.12)."""
+    mod = ast.Module(body=body, type_ignores=[])
+
+    def pure_expr(e):
+        for x in ast.walk(e):
+            if isinstance(x, ast.Call):
+                f = ast.unparse(x.func)
+                if not (f in ("len", "sorted", "list", "tuple", "int", "float", "abs", "min", "max", "str") or (f[:1].isupper() and f.isidentifier())):
+                    return False
+            if isinstance(x, (ast.Lambda, ast.Await, ast.Yield, ast.YieldFrom, ast.NamedExpr)):
+                return False
+        return True
+    for ia, A in enumerate(body):
+        if not (isinstance(A, ast.For) and not A.orelse and isinstance(A.target, ast.Name) and pure_expr(A.iter)):
+            continue
+        apps = [st for st in A.body if isinstance(st, ast.Expr) and isinstance(st.value, ast.Call) and isinstance(st.value.func, ast.Attribute)
+                and st.value.func.attr == "append" and isinstance(st.value.func.value, ast.Name) and len(st.value.args) == 1]
+        if len(apps) != 1:
+            continue
+        L = apps[0].value.func.value.id
+        ok = True
+        assigned = set()
+        for st in A.body:
+            if st is apps[0]:
+                ok = ok and pure_expr(st.value.args[0])
+            elif isinstance(st, ast.Assign) and len(st.targets) == 1 and isinstance(st.targets[0], ast.Name) and pure_expr(st.value):
+                assigned.add(st.targets[0].id)
+            elif isinstance(st, ast.AugAssign) and isinstance(st.target, ast.Name) and pure_expr(st.value):
+                assigned.add(st.target.id)
+            else:
+                ok = False
+        if not ok:
+            continue
+        # loop-carried locals: read in A's body before (or in the statement where) they are assigned
+        carried = set()
+        seen = set()
+        for st in A.body:
+            reads = {x.id for x in ast.walk(st.value if isinstance(st, (ast.Assign, ast.AugAssign)) else st) if isinstance(x, ast.Name) and isinstance(x.ctx, ast.Load)}
+            if isinstance(st, ast.AugAssign):
+                reads.add(st.target.id)
+            carried |= {r for r in reads if r in assigned and r not in seen}
+            if isinstance(st, ast.Assign):
+                seen.add(st.targets[0].id)
+        # initialisers: `L = []` and `c = <const>` among the statements just before A (top level)
+        inits = {}
+        j = ia - 1
+        while j >= 0 and isinstance(body[j], ast.Assign) and len(body[j].targets) == 1 and isinstance(body[j].targets[0], ast.Name) \
+                and body[j].targets[0].id in ({L} | carried):
+            inits[body[j].targets[0].id] = body[j]
+            j -= 1
+        if L not in inits or not (isinstance(inits[L].value, ast.List) and not inits[L].value.elts) or not carried <= set(inits):
+            continue
+        if not all(isinstance(inits[c].value, ast.Constant) for c in carried):
+            continue
+        own = {id(x) for st in [A] + list(inits.values()) for x in ast.walk(st)}
+        names_A = assigned | {A.target.id, L}
+        # every other mention of L / A's locals
+        others = [x for x in ast.walk(mod) if isinstance(x, ast.Name) and x.id in names_A and id(x) not in own]
+        readers = []
+        for B in ast.walk(mod):
+            if isinstance(B, ast.For) and B is not A:
+                it = B.iter
+                en = isinstance(it, ast.Call) and isinstance(it.func, ast.Name) and it.func.id == "enumerate" and len(it.args) == 1 and not it.keywords
+                src = it.args[0] if en else it
+                if isinstance(src, ast.Name) and src.id == L:
+                    readers.append((B, en))
+        if len(readers) != 1:
+            continue
+        B, en = readers[0]
+        if B.orelse or (en and not (isinstance(B.target, (ast.Tuple, ast.List)) and len(B.target.elts) == 2)):
+            continue
+        rec_t = B.target.elts[1] if en else B.target
+        in_B = {id(x) for x in ast.walk(B)}
+        # outside B nothing else may mention L or A's locals; inside B's body only re-bindings of names A does not carry are tolerated
+        if any(id(x) not in in_B for x in others):
+            continue
+        b_stores = {x.id for st in B.body for x in ast.walk(st) if isinstance(x, ast.Name) and isinstance(x.ctx, ast.Store)}
+        b_reads = {x.id for st in B.body for x in ast.walk(st) if isinstance(x, ast.Name) and isinstance(x.ctx, ast.Load)}
+        if b_stores & (carried | {x.id for x in ast.walk(A.iter) if isinstance(x, ast.Name)}) or (b_reads & (names_A - {L})) - b_stores - {A.target.id}:
+            # B reads one of A's locals directly (not through the record): their values after loop A are the last key's, not the k-th
+            if (b_reads & (names_A - {L})) - b_stores:
+                continue
+        if any(isinstance(x, (ast.Break,)) for st in B.body for x in ast.walk(st)):
+            continue
+        new_body = []
+        for st in A.body:
+            if st is apps[0]:
+                new_body.append(ast.copy_location(ast.Assign([copy.deepcopy(rec_t)], st.value.args[0]), st))
+            else:
+                new_body.append(copy.deepcopy(st))
+        for t in ast.walk(new_body[0]) if False else ():
+            pass
+        for st in new_body:
+            for x in ast.walk(st):
+                if isinstance(x, ast.Name) and x is not None and hasattr(x, "ctx") and any(x is y for y in ast.walk(rec_t)):
+                    x.ctx = ast.Store()
+        tgt = ast.Tuple([B.target.elts[0], copy.deepcopy(A.target)], ast.Store()) if en else copy.deepcopy(A.target)
+        itx = ast.Call(ast.Name("enumerate", ast.Load()), [copy.deepcopy(A.iter)], []) if en else copy.deepcopy(A.iter)
+        fused = ast.copy_location(ast.For(tgt, itx, new_body + B.body, []), B)
+        pre = [copy.deepcopy(inits[c]) for c in sorted(carried)]
+
+        def place(stmts):
+            out = []
+            for st in stmts:
+                if st is B:
+                    out.extend(pre)
+                    out.append(fused)
+                    continue
+                if st is A or any(st is v for v in inits.values()):
+                    continue
+                for fld in ("body", "orelse", "finalbody"):
+                    v = getattr(st, fld, None)
+                    if isinstance(v, list) and v and all(isinstance(x, ast.stmt) for x in v) and not isinstance(st, (ast.FunctionDef, ast.ClassDef)):
+                        setattr(st, fld, place(v))
+                out.append(st)
+            return out
+        res = place(body)
+        for st in res:
+            ast.fix_missing_locations(st)
+        return table_fuse(res)
+    return body
+
+
 def unzip_map(body: List[ast.stmt]) -> List[ast.stmt]:
     """UNZIP-MAP: `L = [F(x) for x in K]` (bound once) ... `for (k, l) in zip(K, L): S`  ->  `for k in K: l = F(k); S` (also under enumerate()).
     F is call-free apart from len(), so it reads the same containers whether it is evaluated before the loop or inside it -- provided the loop
@@ -1872,6 +2000,15 @@ class Normaliser:
         out.body = self.version_block(out.body)
         out = self.alias(out)
         out.body = self.block(out.body)
+        fused = table_fuse(out.body)
+        if fused is not out.body:
+            # a record table built ahead of its only reader: the records are now built where they are read; unpack and settle again
+            b = fused
+            if self.namedtuples:
+                b = split_assign(self.nt_unpack(split_assign(b, self.namedtuples)), self.namedtuples)
+            out.body = copy_propagate(split_assign(b))
+            out = self.alias(out)
+            out.body = self.block(out.body)
         ast.fix_missing_locations(out)
         return out
 
